@@ -408,16 +408,18 @@ func verifLoadTable(sess *Session, t selTable) error {
 				vals = append(vals, gv)
 			}
 			if len(cols) == 0 {
-				// an all-NULL row: name one column the table does not have (Insert ignores
-				// unknown names; an empty column list would mean "all columns")
-				lits = []string{"0"}
-				vals = []interface{}{int64(0)}
+				// an all-NULL row: NULL cannot be written in SQL text and an empty column list
+				// would mean "all columns", so name every column and hand Insert nil values
+				textual = false
+				vals = make([]interface{}, len(t.Cols))
 			}
 			tuples = append(tuples, "("+strings.Join(lits, ", ")+")")
 			rvcs = append(rvcs, sql.RowValueConstructor{RowValueConstructorList: vals})
 		}
 		if len(cols) == 0 {
-			cols = []string{"zz_verif_no_such_column"}
+			for _, c := range t.Cols {
+				cols = append(cols, c.Name)
+			}
 		}
 		if textual {
 			q := "INSERT INTO " + t.Name + " (" + strings.Join(cols, ", ") + ") VALUES " + strings.Join(tuples, ", ")
